@@ -13,7 +13,7 @@ Keys == {ka, kb, kc}
 Mem == {x, y}
 ValU == {VSet(m, 0) : m \in (SUBSET Mem) \ {{}}} \cup {VStr(x, 0), VList(<<x>>, 0)}
 Dbs0 == UNION {[K -> ValU] : K \in SUBSET Keys}
-SetStates == {[InitServer({1}) EXCEPT !.dbs[0] = d] : d \in Dbs0}
+SetStates == {WithDb0(InitServer({1}), d) : d \in Dbs0}
 
 N(i) == Itoa(i)
 C(name, args) == <<B(name)>> \o args
